@@ -369,7 +369,7 @@ func (s *ProofStructure) CommitmentsFromSecrets(g *gabikeys.PublicKey, m, mRando
 
 	bases := zkproof.NewBaseMerge(g, commit)
 
-	var contributions []*big.Int
+	contributions := s.statementContributions(commit.c)
 	contributions = s.mCorrect.CommitmentsFromSecrets(g, contributions, &bases, commit)
 	for i := range commit.d {
 		contributions = s.cRep[i].CommitmentsFromSecrets(g, contributions, &bases, commit)
@@ -444,10 +444,19 @@ func (s *ProofStructure) VerifyProofStructure(g *gabikeys.PublicKey, p *Proof) b
 	return true
 }
 
+// statementContributions returns what the challenge has to cover besides the Schnorr commitments: the statement being
+// proved (sign, factor and bound) and the commitments C_i to the squares. Without them a prover could fix the Schnorr
+// commitments, learn the challenge and only then pick the bound and the C_i, which makes false inequalities provable.
+func (s *ProofStructure) statementContributions(cs []*big.Int) []*big.Int {
+	contributions := make([]*big.Int, 0, 3+3*len(cs)+1)
+	contributions = append(contributions, big.NewInt(int64(s.sign)), new(big.Int).SetUint64(uint64(s.a)), s.k)
+	return append(contributions, cs...)
+}
+
 func (s *ProofStructure) CommitmentsFromProof(g *gabikeys.PublicKey, p *Proof, challenge *big.Int) []*big.Int {
 	bases := zkproof.NewBaseMerge(g, (*proof)(p))
 
-	var contributions []*big.Int
+	contributions := s.statementContributions(p.Cs)
 	contributions = s.mCorrect.CommitmentsFromProof(g, contributions, challenge, &bases, (*proof)(p))
 	for i := range s.cRep {
 		contributions = s.cRep[i].CommitmentsFromProof(g, contributions, challenge, &bases, (*proof)(p))
